@@ -227,8 +227,8 @@ CLAIMS["C09"] = {
     "design_ref": "DESIGN.md section 4 C09",
     "note": "Trusted: symgo, z3. Only wrapTable/integerAttribute/NewTableCellBox are decided; the rest of the box-generation rules is outside this technique's reach here.",
 }
-H("C09", "html/boxes", "VxH_C09_grid", reach=["built"], bounds="table of 2 (thorough 3) rows x 2 cells; colspan and (except in the last row) rowspan absent or a symbolic digit 0..3", quick={"maxsteps": 50000000, "time": "500s", "shards": 8}, thorough={"maxsteps": 50000000, "time": "2400s", "shards": 12, "maxpaths": 4000000})
-H("C13", "html/boxes", "VxH_C09_grid", reach=["built"], bounds="table grid slots, see C09", quick={"maxsteps": 50000000, "time": "500s", "shards": 8}, thorough={"maxsteps": 50000000, "time": "2400s", "shards": 12, "maxpaths": 4000000})
+H("C09", "html/boxes", "VxH_C09_grid", reach=["built"], bounds="table of 2 (thorough 3) rows x 2 cells; colspan and (except in the last row) rowspan absent or a symbolic digit 0..3", quick={"maxsteps": 50000000, "time": "500s", "shards": 8}, thorough={"maxsteps": 50000000, "time": "5400s", "shards": 16, "maxpaths": 4000000})
+H("C13", "html/boxes", "VxH_C09_grid", reach=["built"], tiers=["quick"], bounds="table grid slots, see C09 (the deeper bound is explored once, under C09 thorough)", quick={"maxsteps": 50000000, "time": "500s", "shards": 8}, thorough={"maxsteps": 50000000, "time": "5400s", "shards": 16, "maxpaths": 4000000})
 
 # ---- C13 tables ----
 ASSUMPTIONS["C13"] = [
@@ -320,7 +320,7 @@ H("C07", "css/validation", "VxH_C07_validators", reach=["validated"], bounds="~1
 H("C07", "css/validation", "VxH_C07_descriptors", reach=["counter-style", "font-face"], bounds="@font-face (9) and @counter-style (11) descriptor names x value of 0..2 tokens over 12 kinds", quick={"shards": 6})
 H("C19", "html/boxes", "VxH_C19_scope", reach=["built"], bounds="body > x-a > x-a1, x-b, x-c; each element one of {nothing, counter-reset c 5, counter-set c 7, counter-increment c 2}; every element prints counters(c, '.')", quick={"maxsteps": 80000000, "shards": 6})
 H("C01", "html/boxes", "VxH_C01_quotes", reach=["built"], bounds="body > x-a > x-b, x-c; ::before/::after of x-a and x-b and ::before of x-c each one of {nothing, open-quote, close-quote, no-open-quote, no-close-quote}; quotes with two pairs (thorough: also one pair)", quick={"maxsteps": 80000000, "shards": 6})
-H("C09", "html/boxes", "VxH_C09_wellformed", reach=["built"], bounds="x-p > x-s > (text, x-i, text, x-j > x-k); display of x-p (2, thorough 3), x-s (6 incl. inline-grid / inline-flex / grid / flex; 7), x-i (6; 19), x-j (4; 19), x-k (2; 4), float and position of x-i (2 each)", quick={"maxsteps": 80000000, "shards": 8}, thorough={"maxsteps": 80000000, "shards": 14})
+H("C09", "html/boxes", "VxH_C09_wellformed", reach=["built"], bounds="x-p > x-s > (text, x-i, text, x-j > x-k); display of x-p (2), x-s (6 incl. inline-grid / inline-flex / grid / flex; thorough 7), x-i (6; thorough all 19), x-j (4), x-k (2; thorough 4), float and position of x-i (2 each)", quick={"maxsteps": 80000000, "shards": 8}, thorough={"maxsteps": 80000000, "shards": 14})
 H("C16", "html/document", "VxH_C16_paint", reach=["laid-out", "drawn"], bounds="html > body > (section, article > nav, aside), unique background / border / outline colours; section {static,relative} x {z auto,-1,1} x {opaque,translucent}; article {static,relative} x {z auto,1} x {float none,left}; aside {static,relative} x {z auto,-1,0,1} (thorough: x translucent)", quick={"maxsteps": 200000000, "time": "800s", "shards": 8}, thorough={"maxsteps": 200000000, "shards": 14})
 for _p in ("C15", "C01", "C18"):
     H(_p, "svg", "VxH_C15_svg_templates", reach=["resolved"], bounds="three gradient definitions, href of each one of {none, #g0, #g1, #g2} (all 64 reference graphs, cycles included), visiting order of the definitions map a solver-chosen permutation in two independent runs", quick={"maxsteps": 80000000, "shards": 6})
